@@ -43,7 +43,7 @@ def tree_digest(repo=REPO):
     return h.hexdigest()[:16]
 
 
-def make_overlay(dst, profile, playback=False, extra_cfg=()):
+def make_overlay(dst, profile, playback=False, extra_cfg=(), harness_dir=None):
     """Create the overlay crate in `dst` from REPO's current working tree."""
     os.makedirs(dst)
     shutil.copytree(os.path.join(REPO, "src"), os.path.join(dst, "src"))
@@ -52,7 +52,7 @@ def make_overlay(dst, profile, playback=False, extra_cfg=()):
             shutil.copy(os.path.join(REPO, f), os.path.join(dst, f))
     # harness sources are copied into the overlay so that playback (`inplace`)
     # never writes into /verif
-    shutil.copytree(os.path.join(HERE, "harness"), os.path.join(dst, "vh"))
+    shutil.copytree(harness_dir or os.environ.get("VERIF_HARNESS_DIR") or os.path.join(HERE, "harness"), os.path.join(dst, "vh"))
     vh = os.path.join(dst, "vh")
     appended = {}
     for key, (src, hfile, mod) in HOOKS.items():
